@@ -18,6 +18,7 @@ import OdeVerif.Model.Config
 import OdeVerif.Model.Cli
 import OdeVerif.Model.FromFunction
 import OdeVerif.Model.Singularity
+import OdeVerif.Model.Poly
 
 open Lean
 
@@ -508,6 +509,38 @@ def opSingularities (j : Json) : Except String Json := do
   pure (Json.mkObj [("conditions", Json.arr (r.map (fun (c : Nat) => Json.num (JsonNumber.fromNat c))).toArray),
                     ("n_bases", Json.num (JsonNumber.fromNat ((entries.flatMap Singularity.negBases).length)))])
 
+/-! ### C04: expand + linearity test on the Laurent-polynomial grammar -/
+
+partial def parsePolyExpr (n : Nat) (j : Json) : Except String (Poly.Expr n) := do
+  match j.getObjVal? "num" with
+  | .ok q => pure (.num (← ratOfString (← q.getStr?)))
+  | .error _ =>
+  match j.getObjVal? "sym" with
+  | .ok (Json.arr #[i, k]) => do
+    let i ← (fromJson? i : Except String Nat)
+    if h : i < n then pure (.sympow ⟨i, h⟩ (← fromJson? k : Int)) else .error "symbol index out of range"
+  | _ =>
+  match j.getObjVal? "add" with
+  | .ok (Json.arr #[a, b]) => pure (.add (← parsePolyExpr n a) (← parsePolyExpr n b))
+  | _ =>
+  match j.getObjVal? "mul" with
+  | .ok (Json.arr #[a, b]) => pure (.mul (← parsePolyExpr n a) (← parsePolyExpr n b))
+  | _ =>
+  match j.getObjVal? "neg" with
+  | .ok a => pure (.neg (← parsePolyExpr n a))
+  | .error _ =>
+  match j.getObjVal? "pow" with
+  | .ok (Json.arr #[a, k]) => pure (.pow (← parsePolyExpr n a) (← fromJson? k : Nat))
+  | _ => .error "bad polynomial expression"
+
+def opPolyVerdict (j : Json) : Except String Json := do
+  let n ← getNat j "n"
+  let isVarL ← j.getObjValAs? (List Bool) "is_var"
+  let e ← parsePolyExpr n (← j.getObjVal? "expr")
+  let isVar : Fin n → Bool := fun i => isVarL.getD i.val false
+  pure (Json.mkObj [("linear_cc", Json.bool (Poly.linearCC isVar e)),
+                    ("n_raw_terms", Json.num (JsonNumber.fromNat (Poly.expandRaw e).length))])
+
 def dispatch (op : String) (j : Json) : Json :=
   match op with
   | "ping" => Json.mkObj [("pong", j)]
@@ -532,6 +565,7 @@ def dispatch (op : String) (j : Json) : Json :=
   | "cli" => run (opCli j)
   | "from-function" => run (opFromFunction j)
   | "singularities" => run (opSingularities j)
+  | "poly-verdict" => run (opPolyVerdict j)
   | _ => jerr ("unknown-op: " ++ op)
 
 end OdeVerif.Driver
